@@ -49,6 +49,14 @@ class Outer:
     class Inner:
         x: Optional[int] = None
 
+    class Mid:
+        class Tint(Enum):
+            PALE = "pale"
+
+        @dataclass
+        class Deep:
+            x: Optional[int] = None
+
 
 @dataclass
 class Holder:
@@ -91,13 +99,15 @@ def to_real(v):
         return {"float-inf": math.inf, "decimal": Decimal("1.50"), "qname": QName("urn:x-y", "q"), "xmldate": XmlDate(2020, 2, 29),
                 "xmlduration": XmlDuration("P1D"), "pydate": datetime.date(2020, 1, 2)}[v["tag"]]
     if t == "enum":
-        return m.Color.RED if v["home"]["path"] == ["Color"] else m.Outer.Shade.DARK
+        return {"Color": m.Color.RED, "Shade": m.Outer.Shade.DARK, "Tint": m.Outer.Mid.Tint.PALE}[v["home"]["path"][-1]]
     if t == "seq":
         items = [to_real(x) for x in v["items"]]
         return tuple(items) if v["kind"] == "tuple" else items
     if t == "model":
         if v["home"]["path"] == ["Outer", "Inner"]:
             return m.Outer.Inner(**{f["name"]: to_real(f["v"]) for f in v["fields"]})
+        if v["home"]["path"] == ["Outer", "Mid", "Deep"]:
+            return m.Outer.Mid.Deep(**{f["name"]: to_real(f["v"]) for f in v["fields"]})
         return m.Holder(**{f["name"]: to_real(f["v"]) for f in v["fields"]})
     raise ValueError(t)
 
@@ -122,7 +132,7 @@ def evaluate(ctx, obj, info, tags=()):
 
 def run(ctx):
     ctx.rule = (
-        "TLC: Holder(a, b) over 15 kinds of leaf + lists/tuples of them (2401 values), invariant EvaluatesBack with the open "
+        "TLC: Holder(a, b) over 17 kinds of leaf (incl. classes and enums nested two and three levels deep) + lists/tuples of them (3025 values), invariant EvaluatesBack with the open "
         "findings excused by selectors. Real code: each value built from real classes, rendered by PycodeSerializer, exec()ed "
         "in a fresh namespace and compared with the original; model zoo + frozen/tuple/dict models. A case is a distinct value."
     )
